@@ -46,7 +46,9 @@ RULE = ("objects: BPSK, QPSK(+setPhaseOffset), PSK(2^1..2^10, 8 offsets) constru
         "[-1.6,1.6]^2, 64 [256] rays x radii 1e-12,10,1e6} as plain 1-D arrays and once more in the 12 other array presentations "
         "(all of them per family when cheap, else consecutive blocks rotate through them), 0-d, complex64, "
         "against brute-force argmin of squared distance "
-        "(ties excluded by a margin test); constructors on every integer 0..4100. A case is "
+        "(ties excluded by a margin test); per object one index buffer and one sample buffer rewritten in "
+        "place between calls (no state across calls, arguments unmodified, returned arrays not aliased); "
+        "constructors on every integer 0..4100. A case is "
         "non-trivial when the table has >= 2 points; distinct = distinct (kind, M, table digest)")
 
 TIE_REL_DMIN2 = 1e-12         # margin test: gap of squared distances < 1e-12 dmin^2 -> tie
@@ -631,6 +633,72 @@ def check_detection(chk, lab, m, M, spec, level):
     return dmin
 
 
+def check_buffer_reuse(chk, lab, m, M, spec):
+    """no state may survive a call: ONE index buffer / ONE sample buffer object is rewritten in
+    place between calls on the same modulator; arguments must be bit-identical after every call;
+    arrays returned earlier must not change later and writing into a returned array must not
+    reach the table."""
+    sym = np.asarray(m.symbols)
+    dmin, _ = table_geometry(sym)
+    csym = sym.astype(complex)
+    ibuf = index_sequence(M)[:64].copy()
+    n = ibuf.size
+    case = dict(spec, what="buffer_reuse")
+    held = []
+    rewrites = [("initial", lambda b: None),
+                ("buf[:] = buf[::-1]", lambda b: b.__setitem__(slice(None), b[::-1].copy())),
+                ("buf[:] = roll(buf, 5)", lambda b: b.__setitem__(slice(None), np.roll(b, 5))),
+                ("buf[0] = buf[-1]", lambda b: b.__setitem__(0, b[-1]))]
+    # a sample buffer: the symbols of ibuf pulled 30 % of dmin towards the next table entry
+    def samples_for(idx):
+        return csym[idx] + 0.3 * dmin * np.exp(1j * (0.7 + idx))
+    sbuf = samples_for(ibuf)
+    for step, rw in rewrites:
+        rw(ibuf)
+        snap = ibuf.copy()
+        tx = m.modulate(ibuf)
+        chk.count("eval_buffer_reuse_calls")
+        if ibuf.tobytes() != snap.tobytes():
+            chk.fail(("argument_modified", lab, "modulate"), dict(case, step=step), observed=ibuf.copy(), expected=snap)
+            ibuf[:] = snap
+        if np.shape(tx) != (n,) or not np.array_equal(np.asarray(tx), sym[snap]):
+            chk.fail(("modulate", lab, "same_buffer_new_content"), dict(case, step=step, indexes=snap),
+                     observed=np.asarray(tx).ravel()[:4], expected=sym[snap][:4],
+                     msg="same modulator, same index array object, content rewritten in place")
+        if isinstance(tx, np.ndarray):
+            held.append(("modulate@" + step, tx, tx.copy()))
+        sbuf[:] = samples_for(snap)
+        ssnap = sbuf.copy()
+        want, best, second = nearest(sym, ssnap)
+        thr = TIE_REL_DMIN2 * dmin * dmin + TIE_REL_FLOAT * best
+        rx = m.demodulate(sbuf)
+        chk.count("eval_buffer_reuse_calls")
+        if sbuf.tobytes() != ssnap.tobytes():
+            chk.fail(("argument_modified", lab, "demodulate"), dict(case, step=step), observed=sbuf[:4].copy(),
+                     expected=ssnap[:4])
+            sbuf[:] = ssnap
+        decided = (second - best) >= thr
+        if np.shape(rx) != (n,) or np.any((np.asarray(rx) != want) & decided):
+            chk.fail(("demodulate", lab, "same_buffer_new_content"), dict(case, step=step, samples=ssnap),
+                     observed=np.asarray(rx).ravel()[:8], expected=want[:8],
+                     msg="same modulator, same sample array object, content rewritten in place")
+        if isinstance(rx, np.ndarray):
+            held.append(("demodulate@" + step, rx, rx.copy()))
+    for desc, obj, snapv in held:
+        if obj.tobytes() != snapv.tobytes():
+            chk.fail(("returned_array_changed_by_later_call", lab), dict(case, result=desc),
+                     observed=obj[:4], expected=snapv[:4])
+            break
+    # writing into returned arrays must not reach the modulator
+    for desc, obj, snapv in held:
+        if obj.flags.writeable:
+            obj[...] = 0
+    tx = m.modulate(ibuf)
+    if not np.array_equal(np.asarray(tx), sym[ibuf]) or not np.array_equal(np.asarray(m.symbols), sym):
+        chk.fail(("returned_array_aliases_table", lab), case, observed=np.asarray(tx).ravel()[:4], expected=sym[ibuf][:4])
+    chk.outcome("buffer_reuse", (spec["kind"], len(held)))
+
+
 def check_object(chk, u, hist):
     kind, M, level = u["kind"], u["M"], int(u["level"])
     lab = kind_label(kind, hist)
@@ -654,6 +722,8 @@ def check_object(chk, u, hist):
             check_roundtrip(chk, lab, m, M, spec)
             with chk.guard(("modulate", "invalid_index", lab), dict(spec, what="object")):
                 check_invalid_indexes(chk, lab, m, M, spec)
+            with chk.guard(("buffer_reuse", lab), dict(spec, what="object")):
+                check_buffer_reuse(chk, lab, m, M, spec)
         check_detection(chk, lab, m, M, spec, level)
         # the table itself must not have been modified by any of the calls
         if not np.array_equal(sym, np.asarray(build(kind, M, hist).symbols)):
@@ -715,6 +785,9 @@ def main(chk: Check):
                "(nested) Python lists for the table-lookup modulators (BPSK.modulate documents np.ndarray and "
                "evaluates `list > 1`); tuples (numpy reads them as multi-axis indexes), boolean masks and "
                "negative indexes are outside the property")
+    chk.assume("call sequences: on every object one index buffer and one sample buffer object are rewritten in "
+               "place between calls; results follow the new content, arguments stay bit-identical, arrays "
+               "returned earlier do not change and writing into them does not reach the table")
     chk.assume("for tables with fewer than 24 points the index arrays are 0..M-1 followed by an aperiodic tail "
                "up to length 24, so that memory layout matters even for BPSK")
     chk.extra["array_presentations"] = list(ALL_FORMS) + ["0d", "empty"]
@@ -747,6 +820,7 @@ def main(chk: Check):
     chk.require_outcomes("ctor", 4)
     chk.require_outcomes("invalid_index", 12)
     chk.require_outcomes("index_presentation", 25)
+    chk.require_outcomes("buffer_reuse", 4)
     chk.require_outcomes("sample_presentation", len(DETECTION_FORMS))
     if not chk.counters.get("near_boundary_samples_decided"):
         raise Broken("vacuous: no decided near-boundary sample")
